@@ -2,7 +2,7 @@
    fits x says x is representable (an int64). Z.quot / Z.rem truncate toward zero. The f128 methods are the same formulas over the
    Int128 model of C01 (Model.v); their theorems (second half of this file) rest on the C01 theorems for Int128 Add/Sub/Mul/Div. *)
 From Coq Require Import ZArith List Bool.
-From Verif Require Import common.Word64 C01.Model C03.Model C03.Proofs C03.Proofs128.
+From Verif Require Import common.Word64 C01.Model C03.Model C03.Proofs C03.Proofs128 C03.Proofs128b.
 Open Scope Z_scope.
 
 Theorem C03_add_sub_exact : forall a b, (fits (a + b) -> add a b = a + b) /\ (fits (a - b) -> sub a b = a - b).
@@ -107,6 +107,26 @@ Proof.
   split; [exact A|]. split; [exact B|]. split; [exact C|exact D].
 Qed.
 Print Assumptions C03_f128_min_max_inc_dec.
+(* f128 integer conversions (Proofs128b.v). From is exact for every machine integer: signed kinds and the unsigned kinds below 64 bits
+   arrive as int64 (flag false), uint64/uint/uintptr as the 64-bit word (flag true); no integer overflows 10^16 * 2^64 < 2^127 *)
+Theorem C03_f128_from_int_exact : forall M, 10 <= M <= 10000000000000000 -> forall v,
+  (- 9223372036854775808 <= v < 9223372036854775808 -> wf (from_int128 M false v) /\ sval (from_int128 M false v) = v * M) /\
+  (0 <= v < 18446744073709551616 -> wf (from_int128 M true v) /\ sval (from_int128 M true v) = v * M).
+Proof. intros M HM v. split; [apply from128_signed_exact|apply from128_unsigned_exact]; exact HM. Qed.
+Print Assumptions C03_f128_from_int_exact.
+(* As, for EVERY value: the quotient toward zero, read in the requested kind (w bits, signed or not) as Go's conversion does *)
+Theorem C03_f128_as_int_is_narrowed_quotient : forall M, 10 <= M <= 10000000000000000 -> forall w signed a, 0 < w <= 64 -> wf a ->
+  as_int128 M w signed a = kwrap w signed (Z.quot (sval a) M).
+Proof. exact as128_is_narrowed_quotient. Qed.
+Print Assumptions C03_f128_as_int_is_narrowed_quotient.
+(* As (From v) = v for every value of every integer kind *)
+Theorem C03_f128_as_from_roundtrip : forall M, 10 <= M <= 10000000000000000 -> forall w (signed : bool) v, 0 < w <= 64 ->
+  (if signed then - 2 ^ (w - 1) <= v < 2 ^ (w - 1) else 0 <= v < 2 ^ w) ->
+  as_int128 M w signed (from_int128 M (negb signed && (w =? 64)) v) = v.
+Proof. exact as128_from128_roundtrip. Qed.
+Print Assumptions C03_f128_as_from_roundtrip.
+Example C03_ex_f128_from_as : as_int128 1000 64 false (from_int128 1000 true 18446744073709551615) = 18446744073709551615 /\ as_int128 1000 8 true (from_int128 1000 false (-128)) = -128.
+Proof. vm_compute. split; reflexivity. Qed.
 (* non-vacuity: a 39-digit f128 value meets the hypotheses (12345678901234567890123456789012.345678 * 2 in D6) *)
 Example C03_ex_f128_mul : sval (mul128 1000000 (mk 669260594276 5027927973729429070) (From64 2000000)) = 2 * sval (mk 669260594276 5027927973729429070).
 Proof. vm_compute. reflexivity. Qed.
